@@ -389,6 +389,102 @@ Fixpoint restrictions (a : ast) : rmap :=
 Definition possible (r : restr) : bool :=
   negb (r_present r && r_absent r) && negb (match r_vals r with Some [] => true | _ => false end).
 
+(* ================================================================== 2b. the value slices, as the Go code handles them
+   (parser/stringset.go ConvertToStringSetInPlace + StringSet.Contains, ast.go intersectStringSlicesInPlace /
+   unionStringSlicesInPlace).  Section 2 treats MustHaveOneOfValues as a set; here the slices keep their order,
+   the membership test is the binary search of sort.Search, and the in-place sort/de-duplication is spelled out.
+   `restrictions_g` is LabelRestrictions over arbitrary intersection/union functions; `restrictions_f` instantiates
+   it with the faithful ones. *)
+
+Definition bytes_leb (a b : bytes) : bool := negb (bytes_ltb b a).
+
+(* sort.Slice(s, less = Value() <): the ascending arrangement (equal handles are indistinguishable) *)
+Fixpoint binsert (a : bytes) (l : list bytes) : list bytes :=
+  match l with
+  | [] => [a]
+  | b :: l' => if bytes_leb a b then a :: l else b :: binsert a l'
+  end.
+Definition bsort (l : list bytes) : list bytes := fold_right binsert [] l.
+
+(* the de-duplication loop of ConvertToStringSetInPlace: keep an element unless it equals the last one kept *)
+Fixpoint dedup_adj (l : list bytes) : list bytes :=
+  match l with
+  | a :: ((b :: _) as l') => if bytes_eqb a b then dedup_adj l' else a :: dedup_adj l'
+  | _ => l
+  end.
+Definition to_set_f (s : list bytes) : list bytes := dedup_adj (bsort s).
+
+(* sort.Search(n, f): smallest index in [0,n] with f true, by bisection; f i = (ss[i] >= s) *)
+Fixpoint bsearch (fuel lo hi : nat) (ss : list bytes) (s : bytes) : nat :=
+  match fuel with
+  | O => lo
+  | S f =>
+      if Nat.ltb lo hi then
+        let h := Nat.div2 (lo + hi) in
+        if bytes_leb s (nth h ss []) then bsearch f lo h ss s else bsearch f (S h) hi ss s
+      else lo
+  end.
+(* StringSet.Contains *)
+Definition contains_bs (ss : list bytes) (s : bytes) : bool :=
+  let i := bsearch (S (length ss)) 0 (length ss) ss s in
+  Nat.ltb i (length ss) && bytes_eqb (nth i ss []) s.
+
+(* intersectStringSlicesInPlace(a, b): a filtered (order kept) by binary search in the sorted, de-duplicated b *)
+Definition inter_f (a b : list bytes) : list bytes := let bs := to_set_f b in filter (contains_bs bs) a.
+
+(* unionStringSlicesInPlace(a, b): a is sorted and de-duplicated IN PLACE (the slice header keeps its length, so what
+   follows the de-duplicated prefix is the tail of the sorted array), then the values of b the prefix lacks are appended *)
+Definition union_f (a b : list bytes) : list bytes :=
+  let sa := bsort a in
+  let k := dedup_adj sa in
+  (k ++ skipn (length k) sa) ++ filter (fun v => negb (contains_bs k v)) b.
+
+(* the seeded variant of intersectStringSlicesInPlace that binary-searches b WITHOUT sorting it first *)
+Definition inter_nosort (a b : list bytes) : list bytes := filter (contains_bs b) a.
+
+Section RGen.
+  Variable inter union : list bytes -> list bytes -> list bytes.
+
+  Definition and_entry_g (lr : rmap) (e : bytes * restr) : rmap :=
+    let '(ln, r) := e in
+    let base := odflt r_zero (blookup ln lr) in
+    bupd ln {| r_present := r_present base || r_present r;
+               r_absent := r_absent base || r_absent r;
+               r_vals := match r_vals base with
+                         | None => r_vals r
+                         | Some a => match r_vals r with None => Some a | Some b => Some (inter a b) end
+                         end |} lr.
+  Definition and_merge_g (lr opLR : rmap) : rmap := fold_left and_entry_g opLR lr.
+
+  Definition or_entry_g (opLR : rmap) (e : bytes * restr) : rmap :=
+    let '(ln, r) := e in
+    let opr := odflt r_zero (blookup ln opLR) in
+    let mp := r_present r && r_present opr in
+    let vals := if mp then match r_vals r, r_vals opr with
+                           | Some a, Some b => Some (union a b)
+                           | _, _ => None end
+                else None in
+    let ma := r_absent r && r_absent opr in
+    if mp || ma then [(ln, {| r_present := mp; r_absent := ma; r_vals := vals |})] else [].
+  Definition or_merge_g (lr opLR : rmap) : rmap := flat_map (or_entry_g opLR) lr.
+
+  Fixpoint restrictions_g (a : ast) : rmap :=
+    match a with
+    | SEq l v => [(l, {| r_present := true; r_absent := false; r_vals := Some [v] |})]
+    | SContains l _ | SStartsWith l _ | SEndsWith l _ | SHas l => present_only l
+    | SIn l vs => [(l, {| r_present := true; r_absent := false; r_vals := if is_nil vs then None else Some vs |})]
+    | SNe _ _ | SNotIn _ _ | SAll | SGlobal => []
+    | SNot (SHas l) => [(l, {| r_present := false; r_absent := true; r_vals := None |})]
+    | SNot _ => []
+    | SAnd xs => fold_left (fun lr x => and_merge_g lr (restrictions_g x)) xs []
+    | SOr [] => []
+    | SOr (x :: xs) => fold_left (fun lr y => or_merge_g lr (restrictions_g y)) xs (restrictions_g x)
+    end.
+End RGen.
+
+Definition restrictions_f : ast -> rmap := restrictions_g inter_f union_f.
+Definition restrictions_nosort : ast -> rmap := restrictions_g inter_nosort union_f.
+
 (* ================================================================== 3. LabelRestrictionIndex *)
 
 Definition max_int : N := 9223372036854775807.
@@ -423,7 +519,8 @@ Definition classify_restr (R : rmap) : sel_class :=
                        end
       end
   end.
-Definition classify (a : ast) : sel_class := classify_restr (restrictions a).
+(* the index files a selector by the summaries the Go code computes (section 6) *)
+Definition classify (a : ast) : sel_class := classify_restr (restrictions_f a).
 
 (* valuesSubIndex: nil set = [] *)
 Record sub := { sb_wild : list N; sb_vals : list (bytes * list N) }.
